@@ -35,6 +35,7 @@ def frame(n):
         "ys": [["mid", "low", "high"][(k + k // 4) % 3] for k in i],
         "yq": [["level one", "b two", "a-3"][(2 * k + k // 3) % 3] for k in i],
         "y1": ["only"] * n,  # a categorical response with a single level
+        "kd": [[2, 10, 5, -1][(k + k // 3) % 4] for k in i],  # numbers whose text order is not their order
         "ye": [["", "b", " "][(k + k // 2) % 3] for k in i],  # an empty and a blank level name
         "yw": [["New York", "New  York", "Bos\tton"][(k + k // 3) % 3] for k in i],  # levels that differ only in the run of blanks; a tab
     })
@@ -52,6 +53,8 @@ for col, order in (("ys", "sorted"), ("yu", "sorted"), ("yo", "declared")):
         RESP.append({"text": f"{col}['{lvl}']", "kind": "level", "col": col, "level": lvl})
 RESP.append({"text": "yq", "kind": "cat", "col": "yq", "order": "sorted"})
 RESP.append({"text": "y1", "kind": "cat", "col": "y1", "order": "sorted"})
+RESP.append({"text": "C(kd)", "kind": "cat", "col": "kd", "order": "sorted"})
+RESP.append({"text": "T(kd)", "kind": "cat", "col": "kd", "order": "sorted"})
 RESP.append({"text": "ye", "kind": "cat", "col": "ye", "order": "sorted"})
 RESP.append({"text": "yw", "kind": "cat", "col": "yw", "order": "sorted"})
 for _q in ("'", '"'):
@@ -332,6 +335,18 @@ def check_case(case, acc):
                 problems.append(("prop-successes-trials", f"{f!r}: response is not [successes, trials] (kind {R.kind}, shape {M.shape})"))
         if M.shape[0] != len(df):
             problems.append(("response-exists", f"{f!r}: {M.shape[0]} response rows for {len(df)} observations"))
+        # np.array(response) is the caller's copy, the data-frame view too: overwriting them leaves the response as it was
+        before = np.array(R.design_matrix, copy=True)
+        mine = np.array(R)
+        if mine.flags.writeable:
+            mine[...] = -3
+        try:
+            fr_ = R.as_dataframe()
+            fr_.iloc[:, :] = fr_.to_numpy() * 0 - 7
+        except Exception:
+            pass
+        if not np.array_equal(np.asarray(R.design_matrix), before, equal_nan=True):
+            problems.append(("response-exists", f"{f!r}: the response matrix changed when the caller overwrote its own np.array(response) / as_dataframe() copy"))
     acc.subcases(case, len(RESP) - 1, True, "response-forms")
     if problems:
         acc.case(case, "MISMATCH", sample=False)
